@@ -7,6 +7,8 @@ CONSTANTS
   CallsPer = 6
   SwapLast = TRUE
   RestoreOnFail = TRUE
+  Peekers = {}
+  AtomicAnalysis = TRUE
   UseLock = TRUE
 CONSTRAINT Track
 POSTCONDITION Report
